@@ -56,7 +56,7 @@ def design(chk: Check):
             dict(R=2, nblk=2, ad="reverse", wv="{1}", ev="{0, 1}", ov="{0, 3}", nv="{5, 90}"),
             dict(R=2, nblk=25, ad="none", wv="{1}", ev="{0}", ov="{0}", nv="{0}", noest=True)]
     if big:
-        runs += [dict(R=3, nblk=2, ad="forward", wv="{1, 2}", ev="{0, 1, 30}", ov="{0, 40}", nv="{0}"),
+        runs += [dict(R=3, nblk=2, ad="forward", wv="{1}", ev="{0, 1, 30}", ov="{0}", nv="{0}"),
                  dict(R=2, nblk=2, ad="2rdm", wv="{1, 2}", ev="{0, 1}", ov="{0}", nv="{5, 90}"),
                  dict(R=1, nblk=5, ad="none", wv="{1, 2}", ev="{0, 1, 30}", ov="{0}", nv="{0}")]
     out = []
